@@ -134,7 +134,8 @@ func (s *TreeShapeListener) recordApp(location string) {
 	}
 	appName := s.getFullAppName()
 	if err := s.getApps().recordApp(appName, location); err != nil {
-		logrus.Fatal(err)
+		// reported as a parse error by the recover in Parser.Parse; a library must not exit the process
+		panic(err)
 	}
 }
 
@@ -149,7 +150,8 @@ func (s *TreeShapeListener) recordEndpoint(endpoint, location string) {
 	}
 	appName := s.getFullAppName()
 	if err := s.getApps().recordEndpoint(appName, endpoint, location); err != nil {
-		logrus.Fatal(err)
+		// reported as a parse error by the recover in Parser.Parse; a library must not exit the process
+		panic(err)
 	}
 }
 
